@@ -52,6 +52,10 @@ def run(R, pid, tier, seed):
                           "rename/remove sit in one flock critical section; flock exclusion is the kernel's), not decided"]
         _guard(R, pid, "handle_put", lambda: hublib.put_obligations(ctx, R, prover, pid, ncap))
         _guard(R, pid, "handle_delete", lambda: hublib.delete_obligations(ctx, R, prover, pid))
+        # the conflict copy's name `<path>.conflict-<first 12 hex of the losing content's hash>`: the helper, for every digest
+        from . import hexname
+        R.assumptions += ["wire::short_hash is decided on all 2^256 digests (write!(\"{b:02x}\") decoded from its template); in the handler obligations it is a summary"]
+        hexname.run(R, prover, pid, "short_hash")
     elif pid == "C10":
         R.assumptions += ["BLAKE3 = 32 uninterpreted functions of the hashed stream (any hash function); the content stream has 0..%d symbolic bytes delivered in "
                           "arbitrary pieces; crash-atomicity of rename(2) and durability after fsync are the kernel's" % ncap]
